@@ -153,13 +153,22 @@ def run(chk):
     from configs import cfg
     dcold = cfg("RECTANGLE", months=12, loads={"kind": "heating", "scale": 20000.0, "seed": 4}, flow=("BOREHOLE", 0.3), design={"min_eft": -2.0})
     dcold["fluid"] = {"fluid_name": "PROPYLENEGLYCOL", "concentration_percent": 30.0, "temperature": 0}
-    dd = [cfg(months=12), cfg(months=12, loads={"kind": "balanced", "scale": 300.0, "seed": 1}, design={"continue_if_design_unmet": True}), dcold]
+    # the same manager (and process) first designed the same project with another grout heat capacity; both designs end clamped at the minimum height
+    dcap = cfg(months=12, loads={"kind": "balanced", "scale": 300.0, "seed": 1}, design={"continue_if_design_unmet": True})
+    dcap["grout"] = dict(dcap["grout"], rho_cp=1500000.0)
+    dcap["_first_configured_with"] = {"grout": {"rho_cp": 3901000.0}}
+    dd = [cfg(months=12), cfg(months=12, loads={"kind": "balanced", "scale": 300.0, "seed": 1}, design={"continue_if_design_unmet": True}), dcold, dcap]
     for r in e2e_runs(dd):
         if not r.get("ok") or "reference" not in r or "gfunc" not in r:
             chk.broken.append({"name": "end-to-end run / reference failed", "detail": json.dumps({k: r.get(k) for k in ("exc", "msg", "reference_error", "gfunc_error")})})
             continue
         chk.cov["evaluations"] += 1
         nontrivial += 1
+        fp, want = r.get("fluid_props"), r["reference"].get("fluid_from_pygfunction")
+        if fp and want and any(abs(fp[k] - want[k]) > 1e-9 * abs(want[k]) for k in want):
+            chk.violation("design-gfunction", r["cfg"], {"fluid_of_the_design": fp, "requested_fluid": r["cfg"]["fluid"], "its_properties": want},
+                          "the short-time model receives the fluid that was requested (thermal mass, convective resistance and R_b* follow from it)")
+            continue
         rg = r["reference"]["gfunc"]
         if r["gfunc"]["x"] != rg["x"] or r["gfunc"]["y"] != rg["y"]:
             k_ = next((i for i in range(min(len(rg["x"]), len(r["gfunc"]["x"]))) if r["gfunc"]["x"][i] != rg["x"][i] or r["gfunc"]["y"][i] != rg["y"][i]), None)
